@@ -432,7 +432,7 @@ class C04(SimSpec):
         by = {j["name"]: j for j in scen["jobs"]}
         where = rng.choice(["head", "head", "middle", "none", "two"])
         if where == "head":
-            by[names[0]]["rc"] = rng.choice([1, 2, 255])
+            by[names[0]]["rc"] = rng.choice([1, 2, 255, -9, -15])  # a job killed by a signal has failed like any other
         elif where == "middle":
             by[names[len(names) // 2]]["rc"] = 1
         elif where == "two":
@@ -457,7 +457,7 @@ class C04(SimSpec):
                 scen["jobs"].sort(key=lambda j: j["name"], reverse=True)  # names follow dependency order: reversed = dependents first
             if rng.random() < 0.6:
                 # a long cancellation chain: the head fails, (nearly) everything downstream is flagged
-                by[names[0]]["rc"] = rng.choice([1, 2, 255])
+                by[names[0]]["rc"] = rng.choice([1, 2, 255, -9])
                 for j in scen["jobs"]:
                     j["flag"] = j["name"] != names[0] and rng.random() < 0.85
         if i % 8 == 3:
